@@ -151,7 +151,8 @@ def classes():
 
 
 def gen_str(rng, json_ok, file_safe=False):
-    pieces = STR_PIECES + (JSON_ONLY_PIECES if json_ok else [])
+    # CSV / TSV fields: no line breaks (\n, \r), but the characters that only str.splitlines() takes for line ends are ordinary
+    pieces = STR_PIECES + (JSON_ONLY_PIECES if json_ok else ["\x0b", "\x0c", "\x1c", "\x85", "\u2028"])
     s = "".join(rng.choice(pieces) for _ in range(rng.choice([0, 1, 1, 2, 3, 5])))
     if rng.random() < 0.1:
         s += chr(rng.choice([rng.randrange(0x20, 0x7f), rng.randrange(0xa0, 0x2000), rng.randrange(0x3000, 0xd7ff),
@@ -308,7 +309,7 @@ def check_roundtrip(spec, res):
         raise Violation("save-raised", f"{spec[0]}{tuple(spec[1])!r}.save() -> {_short(got)}", {})
     line = got[1]
     body = strip_terminator(line)
-    if "\n" in body or "\r" in body or len(body.splitlines()) > 1:
+    if "\n" in body or "\r" in body or (spec[0][0] == "J" and len(body.splitlines()) > 1):
         raise Violation("save-multiline", f"save() of {_short(r)} spans several lines: {_short(line)}", {})
     for form in (line, body):
         back = outcome(lambda: type(r).load(form))
